@@ -316,6 +316,11 @@ func (e *Exec) lookupCallee(common *ssa.CallCommon, fnv Val) calleeInfo {
 	if p, ok := common.Value.(*ssa.Parameter); ok {
 		keys = append(keys, shortID(e.fn.String())+"."+p.Name())
 	}
+	if u, ok := common.Value.(*ssa.UnOp); ok && u.Op == token.MUL {
+		if g, ok := u.X.(*ssa.Global); ok {
+			keys = append(keys, "global:"+shortPath(g.Pkg.Pkg.Path())+"."+g.Name())
+		}
+	}
 	if fv, ok := common.Value.(*ssa.FreeVar); ok {
 		keys = append(keys, shortID(e.fn.String())+"."+fv.Name())
 	}
@@ -571,7 +576,7 @@ func (e *Exec) isZapPrivateComp(n string) bool {
 	}
 	if strings.HasPrefix(n, "H:") || strings.HasPrefix(n, "E:") || strings.HasPrefix(n, "C:") {
 		rest := strings.TrimLeft(n[2:], "_")
-		for _, p := range []string{"bufio.", "zap.", "zapcore.", "buffer.", "zapio.", "zapgrpc.", "zaptest.", "internal_", "exp_", "observer.", "zaptest_"} {
+		for _, p := range []string{"sync_atomic.", "bufio.", "zap.", "zapcore.", "buffer.", "zapio.", "zapgrpc.", "zaptest.", "internal_", "exp_", "observer.", "zaptest_"} {
 			if strings.HasPrefix(rest, p) {
 				return true
 			}
@@ -1218,7 +1223,7 @@ func (e *Exec) builtinAppend(common *ssa.CallCommon, args []Val, st *State, pos 
 			hi := c.add(fmt.Sprintf("(sl_off %s)", r), newlen)
 			c.factUnder(st.pc, fmt.Sprintf("(forall ((r!a Ref)) (! (=> (or (not (= (elem_base r!a) (sl_arr %s))) %s %s) (= (select %s r!a) (select %s r!a))) :pattern ((select %s r!a))))",
 				r, c.lt("(elem_idx r!a)", lo), c.le(hi, "(elem_idx r!a)"), newC, oldC, newC))
-			// old slice content is readable at the new address range too (needed after reallocation)
+			c.factUnder(st.pc, fmt.Sprintf("(forall ((r!a Ref)) (! (=> (not (= (root r!a) (root (sl_arr %s)))) (= (select %s r!a) (select %s r!a))) :pattern ((select %s r!a))))", r, newC, oldC, newC))
 		} else {
 			c.factUnder(st.pc, fmt.Sprintf("(forall ((r!a Ref)) (! (=> (select %s (root r!a)) (or (= (select %s r!a) (select %s r!a)) (= (root r!a) (root (sl_arr %s))))) :pattern ((select %s r!a))))",
 				c.hget(pre, "$alloc"), newC, oldC, r, newC))
